@@ -22,7 +22,8 @@ AW = {"T": 8, "F": 4, "R": 1, "BR": 1, "CT": 2, "CF": 2, "CR": 1}
 KINDS = genck.ASYNC_KINDS
 NEIGHBOURS = [{"from": "C05", "limit": 400, "why": "argument binding of async callables equals the sync one"},
               {"from": "C10", "limit": 400, "why": "nested calls of async callables run as the sync ones"},
-              {"from": "C03", "limit": 400, "why": "async methods evaluate the same invariants as sync ones"}]
+              {"from": "C03", "limit": 400, "why": "async methods evaluate the same invariants as sync ones"},
+              {"from": "C09", "limit": 500, "why": "every kind of error object surfaces from async callables as from sync ones"}]
 
 
 def cases(tier, rng):
